@@ -119,6 +119,11 @@ def to_events(trace):
             if keep == "trylock":
                 last_try[t] = len(out)
             out.append({"t": t, "op": keep, "r": "", "recvlock": rl})
+    # the run is cut when the last client is done: a try-lock that is a thread's last logged operation may be the first half of
+    # "taken and given back" (the second half was never logged), so what it left behind is not asserted
+    for t, i in last_try.items():
+        if not any(e.get("t") == t for e in out[i + 1:]):
+            out[i]["recvlock"] = "?"
     return out
 
 
